@@ -161,6 +161,26 @@ CHECKS["C18"] = dict(
          "than 15 significant digits only grammar, sign and the round trip number(string(x)) = x are decided.",
     technique="TLA+ numeral arithmetic as oracle (TLC trace validation) + TLC-checked laws + process-isolated execution")
 
+CHECKS["C05"] = dict(
+    category="model_checking", design_ref="DESIGN.md §5 C05",
+    text="Forms.tla defines the space of forms cfg = [src, ss, out, api] (324), Supported(cfg) as the complement of 12 named exclusions derived from the real API surface, and "
+         "the single action Run(cfg) whose outcome is R(S,D,P), independent of cfg by construction; the callback target is a chunk log with Concat(chunks) = bytes and a "
+         "short-counting handler must fail. TLC enumerates the 111 supported forms, checks the transcribed XalanOutputStream/XalanTransformerOutputStream against the chunk "
+         "protocol, and checks that the quick subset is pairwise covering. For each input the harness runs every selected form with the real API of that form (C++ overloads, "
+         "XalanCAPI.h, the Xalan executable built from the same tree); TLC validates each execution: first run = reference, all others same status class with equal canonical trees.",
+    note="Trusted: TLC; the harness drivers of each form and the DOM / source-tree walkers; Python parsing of bytes into trees (pyexpat, html.parser), independent of Xerces; "
+         "control-experiment triage of the four known classes. R(S,D,P) itself is C01's subject. Not covered: disable-output-escaping, indent, byte-level differences of equal trees.",
+    technique="TLA+ configuration model (TLC enumeration + pairwise-cover check) + callback-stream model + differential trace validation across all supported forms")
+CHECKS["C08"] = dict(
+    category="model_checking", design_ref="DESIGN.md §5 C08",
+    text="OutputOptions.tla gives the option vector (13 fields, 1459 vectors enumerated by TLC) and the relations SameContent (indent may only ADD whitespace-only text between "
+         "tags), the text-method rule and HtmlSame. IndentImpl transcribes XalanIndentWriter and its call sites; TLC checks it satisfies SameContent on all event sequences of "
+         "length <= 6/8 except two named, witnessed deviations, and exports one shape per transition. Every (tree, vector) pair is one real transformation whose xsl:output is "
+         "rendered from the vector (plus the XalanTransformer overrides); the bytes are parsed by expat / html.parser and TLC validates each against the reference vector.",
+    note="Trusted: TLC, expat and Python's html.parser as independent parsers with a strict tree builder, the stylesheet renderer, harness/c08.cpp. HTML indentation is bound only "
+         "by the conformance run; names are namespace-free (C14), character-level escaping is C04's.",
+    technique="TLA+ option/indent models (TLC exhaustive + per-transition export + enumerated configuration space) + TLC trace validation with independent parsers")
+
 NOT_YET = {
 }
 
